@@ -5,8 +5,8 @@ import functools
 import heapq
 import itertools
 
-from world import (ALL_KINDS, FILL, Item, SyncIterSource, SrcState, UserExc, asyncstdlib, canon, drive,
-                   exc_name, make_source)
+from world import (ALL_KINDS, FILL, Item, Susp, SyncIterSource, SrcState, UserBaseExc, UserExc, asyncstdlib, canon,
+                   drive, exc_name, make_source)
 
 A = asyncstdlib
 
@@ -101,6 +101,11 @@ def _base(spec):
 def make_fn(spec, idx, log, flavour="def"):
     base = _base(spec)
     state = {"n": 0}
+    nsusp = spec.get("susp", 0) if flavour != "def" else 0
+
+    async def pre():
+        for j in range(nsusp):
+            await Susp(["fn", idx, state["n"], j])
 
     def body(args):
         n = state["n"]
@@ -119,16 +124,19 @@ def make_fn(spec, idx, log, flavour="def"):
         return f
     if flavour == "async":
         async def f(*args):
+            await pre()
             return body(args)
         return f
     if flavour == "partial":
         async def g(_tag, *args):
+            await pre()
             return body(args)
         return functools.partial(g, "tag")
     if flavour == "obj":
         class Obj:
             def __call__(self, *args):
                 async def co():
+                    await pre()
                     return body(args)
                 return co()
         return Obj()
@@ -299,6 +307,15 @@ def run_async(case, reply=None):
     cons = case["cons"]
     tokens = []
     out = None
+    cancel = {"at": case.get("cancel_at"), "n": 0, "exc": None, "tok": None}
+    if cancel["at"] is not None and reply is None:
+        def reply(i, tok):  # noqa: F811
+            cancel["n"] += 1
+            if cancel["n"] == cancel["at"]:
+                cancel["exc"] = UserBaseExc(800 + cancel["at"])
+                cancel["tok"] = tok
+                return ("throw", cancel["exc"])
+            return ("send", ("r", tok))
     try:
         thing = ASYNC_TOOLS[case["tool"]](S, F, p)
     except BaseException as exc:  # noqa: B036 - raised at construction
@@ -308,12 +325,16 @@ def run_async(case, reply=None):
         res = drive(thing, reply)
         tokens += res.tokens
         out = ["raised", exc_name(res.exc)] if res.exc is not None else ["returned", canon_result(res.value)]
+        if cancel["exc"] is not None:
+            agg_cancel = {"cancel_token": cancel["tok"], "cancel_same_object": res.exc is cancel["exc"]}
+        else:
+            agg_cancel = {}
         mutated = [k for k, o in p.get("_objs", {}).items() if canon(o) != canon(mkval(case["params"][k]))]
         mutated += ["src%d" % i for i, (src, obj) in enumerate(zip(case["srcs"], S))
                     if src["kind"] == "list" and [canon(x) for x in obj] != [canon(mkval(e)) for e in src["script"]]]
         returned_same = [k for k, o in p.get("_objs", {}).items() if res.exc is None and res.value is o]
         return {"vis": log, "out": out, "srcs": [s.summary() for s in states], "tokens": tokens,
-                "exc_is_injected": _same_exc(res.exc), "mutated": mutated, "returned_param": returned_same}
+                "exc_is_injected": _same_exc(res.exc), "mutated": mutated, "returned_param": returned_same, **agg_cancel}
     taken = 0
     exc_obj = None
     while True:
@@ -353,6 +374,9 @@ def run_async(case, reply=None):
         break
     result = {"vis": log, "out": out, "srcs": [s.summary() for s in states], "tokens": tokens,
               "exc_is_injected": _same_exc(exc_obj)}
+    if cancel["exc"] is not None:
+        result["cancel_token"] = cancel["tok"]
+        result["cancel_same_object"] = exc_obj is cancel["exc"]
     if hasattr(thing, "aclose") and out[0] == "raised":
         # the owner's duty after a failure: close the handle; everything must be released then
         n = len(log)
@@ -367,7 +391,7 @@ def _same_exc(exc):
     """the exception that reached the consumer is an injected object itself (not a copy/wrapper)"""
     if exc is None:
         return None
-    return isinstance(exc, UserExc) and exc.__cause__ is None
+    return isinstance(exc, (UserExc, UserBaseExc)) and exc.__cause__ is None
 
 
 def run_sync(case):
